@@ -15,6 +15,7 @@ Abstract values (JSON, no null, every integer < 2^31):
 
 One-off tools (run from /verif with PYTHONPATH=.):
   /venv/bin/python -m harness.lib_codec gen-layout   > specs/Codec/layout.json   (unchanged tree only)
+  /venv/bin/python -m harness.lib_codec gen-anchors  > specs/Codec/anchors.json  (hand-written test vectors)
   /venv/bin/python -m harness.lib_codec doc-check    compare the pin with docs/source/deprecated/MESSAGES.rst
   /venv/bin/python -m harness.lib_codec drift        compare the code's field metadata with the pin
 """
@@ -441,7 +442,7 @@ def _doc_messages(path: str) -> dict:
                         block.append(_WIDTH.get(tm.group(1), tm.group(1)))
                     elif rm:
                         block.append(rm.group(1))
-                    elif body.lower().startswith('array'):
+                    elif re.match(r'(an )?array', body.lower()):
                         block.append('[')
                         stack.append((ind, ']'))
                     else:       # Optional: / If ...
@@ -500,7 +501,8 @@ def doc_check(repo: str, pin: dict) -> list[str]:
         if dt is None:
             notes.append(f'{q}: documentation has no :{key}: block')
             continue
-        pt = _pin_tokens(m['fields'], pin)
+        pt = _expand(_pin_tokens(m['fields'], pin), pin)
+        dt = _expand(dt, pin)
         if _strip_groups(pt) != _strip_groups(dt):
             notes.append(f'{q}: WIDTHS differ pin={" ".join(pt)} doc={" ".join(dt)}')
         elif pt != dt:
@@ -513,6 +515,83 @@ def doc_check(repo: str, pin: dict) -> list[str]:
 
 def _strip_groups(toks):
     return [t for t in toks if t not in ('?(', ')')]
+
+
+def _expand(toks, pin):
+    out = []
+    for t in toks:
+        if t in pin['structs']:
+            out += _expand(_pin_tokens(pin['structs'][t], pin), pin)
+        else:
+            out.append({'ip_address': '4'}.get(t, t))
+    return out
+
+
+# ---------------------------------------------------------------------------
+# anchors: the hand-written byte strings of the repository's own protocol tests (one-off)
+# ---------------------------------------------------------------------------
+
+def extract_anchors(repo: str, pin: dict) -> list[dict]:
+    """(class, abstract value, bytes) for every `message = X(...); data = bytes.fromhex(...)` pair in
+    tests/unit/protocol/test_messages.py (serialize and deserialize tests). For compressed messages
+    `bytes` is the inflated payload. Only the *test data* is used, never the code's serializer."""
+    import ast
+    import zlib
+    path = os.path.join(repo, 'tests', 'unit', 'protocol', 'test_messages.py')
+    src = open(path, encoding='utf8').read()
+    tree = ast.parse(src)
+    ns: dict = {}
+    for node in tree.body:
+        if isinstance(node, (ast.Import, ast.ImportFrom)):
+            try:
+                exec(compile(ast.Module([node], []), path, 'exec'), ns)
+            except ImportError:
+                pass
+    # inputs of the tolerant parser that are not the canonical encoding of `message`
+    not_canonical = {'TestPrivateChatMessage.test_PrivateChatMessage_Response_deserialize_withoutIsAdmin',   # absent -> default
+                     'TestPeerInit.test_PeerInit_Request_deserialize_uint64'}                                 # uint64 ticket accepted
+    out, seen = [], set()
+    for cls_node in [n for n in tree.body if isinstance(n, ast.ClassDef)]:
+        for fn in [n for n in cls_node.body if isinstance(n, ast.FunctionDef)]:
+            if f'{cls_node.name}.{fn.name}' in not_canonical:
+                continue
+            local = dict(ns)
+            msg = data = None
+            for st in fn.body:
+                if isinstance(st, ast.Assign) and len(st.targets) == 1 and isinstance(st.targets[0], ast.Name):
+                    name = st.targets[0].id
+                    try:
+                        val = eval(compile(ast.Expression(st.value), path, 'eval'), local)
+                    except Exception:
+                        continue
+                    local[name] = val
+                    if name == 'message':
+                        msg = val
+                    elif name == 'data':
+                        data = val
+            if msg is None or not isinstance(data, (bytes, bytearray)):
+                continue
+            q = None
+            for qq in pin['messages']:
+                c = find_class(qq)
+                if c is not None and type(msg) is c:
+                    q = qq
+            if q is None:
+                continue
+            m = pin['messages'][q]
+            try:
+                a = record_to_abstract(m['fields'], msg, pin)
+            except ShapeError:
+                continue
+            b = bytes(data)
+            if m['compressed']:
+                b = zlib.decompress(b[4 + m['code_width']:])
+            key = (q, json.dumps(a, sort_keys=True), b)
+            if key in seen:
+                continue
+            seen.add(key)
+            out.append(dict(kind='anchor', cls=q, v=a, bytes=list(b), src=f'{cls_node.name}.{fn.name}'))
+    return out
 
 
 if __name__ == '__main__':
@@ -529,6 +608,8 @@ if __name__ == '__main__':
     elif cmd == 'doc-check':
         for n in doc_check(REPO, load_pin()):
             print(n)
+    elif cmd == 'gen-anchors':
+        json.dump(extract_anchors(REPO, load_pin()), sys.stdout)
     elif cmd == 'drift':
         for n in metadata_drift(load_pin()):
             print(n)
